@@ -255,6 +255,7 @@ def main(mod, argv=None):
     seed = int(os.environ.get("VERIF_SEED", "0") or 0)
     nproc = int(os.environ.get("VERIF_JOBS", "0") or 0) or \
         min(16, os.cpu_count() or 1)
+    nproc = min(nproc, getattr(mod, "JOBS", nproc))   # memory-bound checks
     t0 = time.time()
 
     shards = list(mod.shards(tier, seed))
